@@ -2,6 +2,9 @@
 // Engine E4: every request of four exhaustive families (small alphabets built from the separators the key
 // generator uses) is decoded by the real codec and keyed by the real generator; all keys go into one table and
 // every pair of requests that share a key must be the same request as far as the listed parameters go.
+// The table holds every key an entry can be WRITTEN under (GenerateCacheKey) and every key it can be READ under
+// (GenerateCacheKey and GenerateCacheKeyAlternatives); family H replays two-request histories through the real
+// tripperware with the real results cache (history_test.go).
 package c43
 
 import (
@@ -41,20 +44,25 @@ type Req struct {
 	Analyze  bool     `json:"analyze,omitempty"`
 	Label    string   `json:"label,omitempty"`    // kind 1: "" = label names
 	Matchers []string `json:"matchers,omitempty"` // match[] selectors
+	StartMs  int64    `json:"start_ms,omitempty"` // start of the requested range (end = start + 10m)
 }
 
-// Case is a request to add to the table, or (replay / counter-example) a pair to compare directly.
+// Case is a request to add to the table, or (replay / counter-example) a pair to compare directly: the primary
+// keys of A and B; with AltOfB the primary key of A (an entry written by A) and the alternative keys of B (the
+// lower-step lookups of B); with Hist the history "A is answered by the real frontend, then B" (family H).
 type Case struct {
-	A Req  `json:"a"`
-	B *Req `json:"b,omitempty"`
+	A      Req  `json:"a"`
+	B      *Req `json:"b,omitempty"`
+	AltOfB bool `json:"alt_of_b,omitempty"`
+	Hist   bool `json:"hist,omitempty"`
 }
 
 const splitInterval = time.Hour
 
 func (q Req) form() (string, url.Values) {
 	f := url.Values{}
-	f.Set("start", "0")
-	f.Set("end", "600")
+	f.Set("start", strconv.FormatFloat(float64(q.StartMs)/1000, 'f', -1, 64))
+	f.Set("end", strconv.FormatFloat(float64(q.StartMs)/1000+600, 'f', -1, 64))
 	f.Set(queryv1.PartialResponseParam, fmt.Sprint(q.Partial))
 	for _, rl := range q.Replicas {
 		f.Add(queryv1.ReplicaLabelsParam, rl)
@@ -280,7 +288,63 @@ func gen(r *vlib.R) iter.Seq[Case] {
 	r.Set("tenants", len(tenantsAll))
 	r.Set("replica_label_lists", len(replicaAll))
 	r.Set("matcher_sets", len(matchersAll))
+	// families S, T (alternative keys) and H (histories)
+	var queriesS []string
+	for _, s := range stringsOver("a:", 1, 2) {
+		if parses(s) {
+			queriesS = append(queriesS, s)
+		}
+	}
+	// one symbol per branch of lowerStepCacheCandidates / GenerateCacheKeyAlternatives: the lowest common step (no
+	// candidate), common steps one of which does not divide the other (20s, 30s), their common multiple, a step that
+	// is not a common one (45s) with a divisor that is (15s); start 0 and a start aligned to some candidates only.
+	stepsS := []int64{1000, 15000, 20000, 30000, 45000, 60000}
+	startsS := []int64{0, 20000}
+	hist := histories(r, parses)
+	r.Set("history_pairs", len(hist))
 	return func(yield func(Case) bool) {
+		// family S: every tenant x queries over {a :} x steps x starts: the keys read through the alternatives meet the
+		// keys written by the same and by other tenants at every lower step
+		for _, tn := range tenantsAll {
+			for _, q := range queriesS {
+				for _, st := range stepsS {
+					for _, s0 := range startsS {
+						if !yield(Case{A: Req{Kind: 0, Tenant: tn, Query: q, StepMs: st, StartMs: s0}}) {
+							return
+						}
+					}
+				}
+			}
+		}
+		// family T: the listed parameters on two common steps (15m divides 30m; "auto" is another class on each)
+		for _, tn := range tenantsFew {
+			for _, q := range queriesFew {
+				for _, st := range []int64{900000, 1800000} {
+					for _, msr := range msrs {
+						for _, sh := range shards[:3] {
+							for _, lb := range []int64{0, 2} {
+								for _, eng := range []string{"", "prometheus", "thanos"} {
+									for _, rl := range [][]string{nil, {"a"}, {"a", "b"}, {""}} {
+										for f := 0; f < 4; f++ {
+											if !yield(Case{A: Req{Kind: 0, Tenant: tn, Query: q, StepMs: st, MSR: msr, Shard: sh, Lookback: lb,
+												Engine: eng, Replicas: rl, Partial: f&1 != 0, Analyze: f&2 != 0}}) {
+												return
+											}
+										}
+									}
+								}
+							}
+						}
+					}
+				}
+			}
+		}
+		// family H: two-request histories through the real frontend
+		for _, c := range hist {
+			if !yield(c) {
+				return
+			}
+		}
 		// family R: every replica-label list (<= 2 labels of length <= 3 over {a b : , \}) on a range and on a series request
 		for _, rl := range replicaAll {
 			if !yield(Case{A: Req{Kind: 0, Tenant: "a", Query: "a", StepMs: 1000, Replicas: rl}}) {
@@ -369,9 +433,73 @@ func gen(r *vlib.R) iter.Seq[Case] {
 	}
 }
 
-func keyOf(q Req) (string, bool, error) {
+// keyed is what the real frontend derives from one request: the key its entry is read and written under, the
+// alternative keys it is also looked up under, or a rejection / "not cacheable" / a panic of the code under test.
+type keyed struct {
+	key  string
+	alts []string
+	ok   bool
+	err  error
+	pan  string
+}
+
+func keysOf(q Req) (k keyed) {
+	defer func() {
+		if p := recover(); p != nil {
+			k = keyed{pan: fmt.Sprint(p)}
+		}
+	}()
 	p, f := q.form()
-	return queryfrontend.VerifC43Key(q.Tenant, p, f, splitInterval)
+	k.key, k.alts, k.ok, k.err = queryfrontend.VerifC43Keys(q.Tenant, p, f, splitInterval)
+	return k
+}
+
+func keyOf(q Req) (string, bool, error) {
+	k := keysOf(q)
+	if k.pan != "" {
+		return "", false, fmt.Errorf("panic: %s", k.pan)
+	}
+	return k.key, k.ok, k.err
+}
+
+// withoutStep drops "step" from a list of differing parameters.
+func withoutStep(d []string) []string {
+	var out []string
+	for _, x := range d {
+		if x != "step" {
+			out = append(out, x)
+		}
+	}
+	return out
+}
+
+// lowerStepOf says whether a request with step/start (stepB, startB) may be answered from samples evaluated
+// with stepA: every timestamp B evaluates (startB + k*stepB) is one a start-aligned stepA grid holds.
+func lowerStepOf(stepA, stepB, startB int64) (bool, string) {
+	switch {
+	case stepA <= 0 || stepA >= stepB:
+		return false, "not-lower"
+	case stepB%stepA != 0:
+		return false, "not-a-divisor"
+	case startB%stepA != 0:
+		return false, "start-not-aligned"
+	}
+	return true, ""
+}
+
+// servable is the reference for "an entry written by a may be used to answer b": same request in all listed
+// parameters, or differing in step only with a's step a lower step of b. (Two metadata requests differing only in
+// partial_response are not judged, see the assumptions.)
+func servable(a, b Req) bool {
+	d := differ(a, b)
+	if len(d) == 0 || (d[0] == "partial-response" && a.Kind != 0) {
+		return true
+	}
+	if len(d) == 1 && d[0] == "step" {
+		ok, _ := lowerStepOf(a.StepMs, b.StepMs, b.StartMs)
+		return ok
+	}
+	return false
 }
 
 func TestCheck(t *testing.T) {
@@ -384,23 +512,40 @@ func TestCheck(t *testing.T) {
 		"R: every list of <=2 replica labels (unordered pairs), each label of length 0..3 over {a b : , \\}, on a range and on a series request; " +
 		"E: engine as free text over {a : , \\} len<=2 x queries over {a :} x replica sets x partial x analyze; " +
 		"M: matcher lists (1 selector, 2 selectors, 1 selector with 2 matchers) with values len<=2 (quick: <=1 in the two-matcher forms) over {b \" \\ blank ] : ,}, plus 4 hand-written imitations, on label names / label values / series. " +
-		"All keys in one table. non-trivial = distinct requests whose tenant, query, label name, engine, a matcher or a replica label contains a separator or escape character")
+		"S: tenants x queries len<=2 over {a :} x steps {1s 15s 20s 30s 45s 60s} x start {0 20s}; T: 2 tenants x 2 queries x steps {15m 30m} x max_source_resolution x shard x lookback x engine x 4 replica sets x partial x analyze; " +
+		"every request enters the table under its primary key (written and read) AND under each of its alternative keys (GenerateCacheKeyAlternatives: read only); a reader of a key must be servable from the writer: same request, or same but for a step that is lower, divides the reader's step and its start; " +
+		"H: every ordered pair of distinct requests of {tenants len<=2 over {a :} x queries len<=2 over {a :} x steps {30s 60s}} and of {same tenants x (labels, label values a and ':', series with replica labels none/a/':') x matcher sets} as a history through the real NewTripperware with real results caches: unless servable, the second answer must equal the answer of a frontend with empty caches. " +
+		"All keys in one table. non-trivial = distinct requests whose tenant, query, label name, engine, a matcher or a replica label contains a separator or escape character; distinct (alternative key, reader step, start) that meet the entry written by the lower-step request; history pairs that are not servable and whose first request was stored")
 	r.Assume("tenant = value of the tenant header as injected by cmd/thanos (extractOrgId), validated by the real tenant resolver",
 		"outside family E the engine is restricted to the values a querier accepts (\"\", prometheus, thanos); shard_info By/Labels of a client-supplied shard_info are not varied",
 		"partial_response differing between two labels or two series requests is only noted: answers with store warnings carry Cache-Control: no-store and are never cached, so it cannot change a cached answer",
-		"replicaLabels[]= (one empty label) and no replicaLabels[] at all are different requests: the frontend forwards the former and a querier then replaces its configured replica labels by [\"\"]")
+		"replicaLabels[]= (one empty label) and no replicaLabels[] at all are different requests: the frontend forwards the former and a querier then replaces its configured replica labels by [\"\"]",
+		"an alternative (lower-step) lookup is legitimate when the two requests agree on tenant and every listed parameter (resolution by class of each request's own max_source_resolution) and the writer's step is lower than, and divides, the reader's step and start; the writer's own start alignment is not in the key and not judged",
+		"family H: the querier is a fake whose answer names the tenant header and every forwarded parameter (samples valued by their timestamp); split interval 1h, range 10m, FIFO caches, no step alignment / downsampled retry / retries / sharding middleware; answers of servable pairs are not compared (extraction from an entry is not this property)")
 
-	// one table of all keys, split by key hash into independently locked parts so that the workers do not queue
+	// one table of all keys, split by key hash into independently locked parts so that the workers do not queue.
+	// A slot holds the first request WRITING under the key (its primary key) and, until that one arrives, the
+	// requests that only READ under it (one of their alternative keys).
+	type slot struct {
+		prim    *Req
+		readers []*Req
+	}
 	type part struct {
 		mu sync.Mutex
-		m  map[string]*Req
+		m  map[string]*slot
 	}
 	var (
 		table                          [256]part
 		seen, rejected, uncached, dups atomic.Int64
+		altKeys, altLegit              atomic.Int64
 	)
 	for i := range table {
-		table[i].m = map[string]*Req{}
+		table[i].m = map[string]*slot{}
+	}
+	partOf := func(key string) *part {
+		h := fnv.New32a()
+		h.Write([]byte(key))
+		return &table[h.Sum32()%uint32(len(table))]
 	}
 	report := func(a, b Req, key string) {
 		d := differ(a, b)
@@ -431,49 +576,131 @@ func TestCheck(t *testing.T) {
 			r.Violation("param-collision:"+first, desc, c)
 		}
 	}
+	// reportAlt judges "b is looked up under key, the key a's entry is written under" (key is an alternative key of b).
+	reportAlt := func(a, b Req, key string) {
+		d := withoutStep(differ(a, b))
+		c := Case{A: a, B: &b, AltOfB: true}
+		if len(d) == 0 {
+			if a.StepMs == b.StepMs {
+				return // its own key
+			}
+			ok, why := lowerStepOf(a.StepMs, b.StepMs, b.StartMs)
+			if ok {
+				altLegit.Add(1)
+				r.Nontrivial("alt\x00" + key + "\x00" + strconv.FormatInt(b.StepMs, 10) + "\x00" + strconv.FormatInt(b.StartMs, 10))
+				return
+			}
+			r.Violation("alternative-key-step-relation:"+why, fmt.Sprintf("the request with step %dms start %dms is looked up under %q, the key of the same request with step %dms",
+				b.StepMs, b.StartMs, key, a.StepMs), c)
+			return
+		}
+		desc := fmt.Sprintf("the second request is looked up under the alternative key %q, the key the entry of the first is stored under; they differ in %v (and step)", key, d)
+		switch first := d[0]; {
+		case first == "kind" && !has(d, "tenant"):
+			r.Note("same-tenant requests of different kinds: alternative key %q", key)
+		case has(d, "tenant"):
+			r.Violation("cross-tenant-alternative-key-collision", desc, c)
+		default:
+			r.Violation("alternative-key-param-collision:"+first, desc, c)
+		}
+	}
+	var histFresh sync.Map
 	vlib.ForEach(r, gen(r), func(c Case) {
 		if seen.Add(1) < 20000 { // vlib keeps samples among the first 16807 cases only
 			r.Sample(c)
 		}
-		ka, ok, err := keyOf(c.A)
-		if err != nil {
+		if c.Hist && c.B != nil {
+			evalHistory(r, c, &histFresh)
+			return
+		}
+		ka := keysOf(c.A)
+		if ka.pan != "" {
+			r.Violation("panic-in-cache-key-generator", "the code under test panicked: "+ka.pan, c)
+			return
+		}
+		if ka.err != nil {
 			rejected.Add(1)
 			return
 		}
-		if !ok {
+		if !ka.ok {
 			uncached.Add(1)
 			return
 		}
 		if c.B != nil { // replay of a pair
-			kb, okb, errb := keyOf(*c.B)
-			if errb == nil && okb && ka == kb {
-				report(c.A, *c.B, ka)
+			kb := keysOf(*c.B)
+			switch {
+			case kb.pan != "" || kb.err != nil || !kb.ok:
+			case c.AltOfB && slices.Contains(kb.alts, ka.key):
+				reportAlt(c.A, *c.B, ka.key)
+			case !c.AltOfB && ka.key == kb.key:
+				report(c.A, *c.B, ka.key)
 			}
 			return
 		}
 		if strings.ContainsAny(c.A.Tenant+c.A.Query+c.A.Label+c.A.Engine+strings.Join(c.A.Replicas, "")+strings.Join(c.A.Matchers, ""), ":,|-\\") {
-			r.Nontrivial(ka + "\x00" + c.A.Tenant + "\x00" + strings.Join(c.A.Replicas, "\x00"))
+			r.Nontrivial(ka.key + "\x00" + c.A.Tenant + "\x00" + strings.Join(c.A.Replicas, "\x00"))
 		}
-		h := fnv.New32a()
-		h.Write([]byte(ka))
-		pt := &table[h.Sum32()%uint32(len(table))]
+		self := c.A
+		// the key the entry is written (and read) under
+		pt := partOf(ka.key)
 		pt.mu.Lock()
-		other, dup := pt.m[ka]
-		if !dup {
-			first := c.A
-			pt.m[ka] = &first
+		sl := pt.m[ka.key]
+		if sl == nil {
+			sl = &slot{}
+			pt.m[ka.key] = sl
+		}
+		other, readers := sl.prim, []*Req(nil)
+		if other == nil {
+			sl.prim, readers, sl.readers = &self, sl.readers, nil
 		}
 		pt.mu.Unlock()
-		if dup {
+		if other != nil {
 			dups.Add(1)
-			report(*other, c.A, ka)
+			report(*other, self, ka.key)
+		}
+		for _, b := range readers {
+			reportAlt(self, *b, ka.key)
+		}
+		// the keys it is also read under
+		for i, k := range ka.alts {
+			if k == ka.key || slices.Contains(ka.alts[:i], k) {
+				continue // resultsCache drops these too
+			}
+			altKeys.Add(1)
+			pt := partOf(k)
+			pt.mu.Lock()
+			sl := pt.m[k]
+			if sl == nil {
+				sl = &slot{}
+				pt.m[k] = sl
+			}
+			writer := sl.prim
+			if writer == nil {
+				sl.readers = append(sl.readers, &self)
+			}
+			pt.mu.Unlock()
+			if writer != nil {
+				reportAlt(*writer, self, k)
+			}
 		}
 	})
-	keys := 0
+	keys, readOnly := 0, 0
 	for i := range table {
-		keys += len(table[i].m)
+		for _, sl := range table[i].m {
+			if sl.prim != nil {
+				keys++
+			} else {
+				readOnly++
+			}
+		}
 	}
 	r.Set("distinct_keys", keys)
+	r.Set("keys_only_looked_up_never_written", readOnly)
+	r.Set("alternative_keys", altKeys.Load())
+	r.Set("history_first_request_not_answered", histFirstNotStored.Load())
+	r.Set("history_second_request_served_from_the_cache_where_the_reference_allows_it", histServedFromCache.Load())
+	r.Set("history_servable_pairs_whose_answer_differs_from_a_fresh_one", histServableDiffers.Load())
+	r.Set("alternative_lookups_meeting_the_lower_step_entry_of_the_same_request", altLegit.Load())
 	r.Set("rejected_by_frontend", rejected.Load())
 	r.Set("not_cacheable", uncached.Load())
 	r.Set("requests_sharing_a_key_with_an_earlier_one", dups.Load())
